@@ -38,4 +38,14 @@ def genMultiDefAndRun (sub : Arg → P Unit) (args : List Arg) : P Unit := do
   sub last
   bindTargets syms
 
+/-- A re-ordering of the `*SexpPair` case that tests for an assignment BEFORE testing for a
+proper list (not a past state of the repository: the shape of a plausible refactoring, kept
+to show what the guard order protects against). -/
+def genPairAssignFirst (sub : Arg → P Unit) (p : PairShape) : P Unit :=
+  match p.assignPos with
+  | some pos =>
+    if pos > 0 ∧ p.lhsOk then genAssignment sub p pos
+    else if p.proper then sub .other else pure ()
+  | none => if p.proper then sub .other else pure ()
+
 end ZygoVerif.GenSites.Legacy
